@@ -195,6 +195,45 @@ class Counter(Native):
         return v
 
 
+class LazyIter(Native):
+    """A scripted lazy iterator (a generator the rule provides): `items` are handed out one by one by next_value(); an item that is a
+    Raise instance is raised at that point (the generator fails after having yielded the earlier items).  `on_next(k)` is called
+    before the k-th item is produced, so that a rule sees when the consumer asks for more."""
+
+    def __init__(self, items, on_next=None, label='lazy'):
+        self.items, self.k, self.on_next, self.label = list(items), 0, on_next, label
+
+    def __repr__(self):
+        return 'LazyIter(%s@%d)' % (self.label, self.k)
+
+    def next_value(self, interp, frame, node):
+        if self.on_next is not None:
+            self.on_next(self.k)
+        if self.k >= len(self.items):
+            raise Raise('StopIteration', node, interp.where(node, frame) if node is not None else '?')
+        v = self.items[self.k]
+        self.k += 1
+        if isinstance(v, Raise):
+            raise v
+        return v
+
+
+class EnumIter(Native):
+    """enumerate() over a lazy iterator."""
+
+    def __init__(self, inner, start=0):
+        self.inner, self.i = inner, start
+
+    def __repr__(self):
+        return 'enumerate(%r)' % (self.inner,)
+
+    def next_value(self, interp, frame, node):
+        v = self.inner.next_value(interp, frame, node)
+        i = self.i
+        self.i += 1
+        return (i, v)
+
+
 class GenList(list):
     """The items of a generator expression, evaluated eagerly (an iterator: next() consumes)."""
 
@@ -771,9 +810,14 @@ class Interp(object):
             if attr == '__name__':
                 return base.name
             return Top('attr:' + attr)
+        if isinstance(base, Top) and base.kind == 'str' and not hasattr(str, attr):
+            raise Raise('AttributeError', node, self.where(node, frame), value='str object has no attribute %s' % attr)
         if isinstance(base, (Top, Sym)):
             return Top('attr:' + attr)
         if isinstance(base, (str, bytes, list, tuple, dict, int, float)) or base is None:
+            if not hasattr(type(base), attr):
+                # a concrete built-in value: whether it has the attribute is decided by its type
+                raise Raise('AttributeError', node, self.where(node, frame), value='%s object has no attribute %s' % (type(base).__name__, attr))
             return UnknownMethod(base, attr, norm(node))
         if isinstance(base, Tok):
             return UnknownMethod(base, attr, norm(node))
@@ -1462,7 +1506,13 @@ class Interp(object):
     def construct(self, cname, args, kwargs, node, frame):
         repo = self.repo
         if cname in BUILTIN_EXC or (repo.has_cls(cname) and self.is_exception_class(cname)):
-            return Obj(cname, {'args': list(args)})
+            o = Obj(cname, {'args': list(args)})
+            init = repo.method(cname, '__init__', required=False) if repo.has_cls(cname) else None
+            if init is not None:
+                # an exception class of the repository with its own constructor: what the constructor does with its arguments
+                # (and whether it fails on them) is part of raising it
+                self.call_function(init, [o] + list(args), kwargs, node, frame)
+            return o
         if repo.has_cls(cname):
             o = Obj(cname, {})
             init = repo.method(cname, '__init__', required=False)
@@ -1616,6 +1666,18 @@ class Interp(object):
             else:
                 raise Raise('TypeError', node, self.where(node, frame))
             return Obj('slice', {'start': st, 'stop': sp, 'step': se, 'args': a})
+        if name in ('list', 'tuple', 'sorted') and isinstance(a0, (LazyIter, EnumIter)) and len(args) == 1 and not kwargs:
+            out = []
+            while len(out) <= 64:
+                try:
+                    out.append(a0.next_value(self, frame, node))
+                except Raise as r:
+                    if r.cls == 'StopIteration':
+                        break
+                    raise
+            if name == 'sorted':
+                return self.builtin('sorted', [out], {}, node, frame)
+            return out if name == 'list' else tuple(out)
         if name in ('list', 'tuple'):
             if isinstance(a0, Deque):
                 a0 = list(a0.items)
@@ -1640,6 +1702,9 @@ class Interp(object):
             if not args:
                 return ()
             return Top('set')
+        if name == 'enumerate' and isinstance(a0, (LazyIter, EnumIter)):
+            st = args[1] if len(args) > 1 and isinstance(args[1], int) else kwargs.get('start', 0)
+            return EnumIter(a0, st if isinstance(st, int) else 0)
         if name == 'enumerate':
             if isinstance(a0, (list, tuple)) or (isinstance(a0, (str, bytes)) and len(a0) <= 4096):
                 st = args[1] if len(args) > 1 and isinstance(args[1], int) else kwargs.get('start', 0)
@@ -1776,6 +1841,10 @@ class Interp(object):
                     names.append(x[1])
                 else:
                     return Top('bool')
+        if names is None and isinstance(t, UnknownMethod) and isinstance(t.recv, ModRef) and t.recv.name == 'six':
+            six_types = {'text_type': 'str', 'binary_type': 'bytes', 'string_types': 'str', 'integer_types': 'int'}
+            if t.name in six_types:
+                names = [six_types[t.name]]
         if names is None:
             # builtin type names come through global_name as Top('name:int')
             if isinstance(t, Top) and t.kind.startswith('name:'):
@@ -2119,13 +2188,21 @@ class Interp(object):
     def st_For(self, s, frame):
         it = self.ev(s.iter, frame)
         vals = self.on_for(s, it, frame)
-        if vals is None and isinstance(it, Counter):
+        if vals is None and isinstance(it, Native) and hasattr(it, 'next_value'):
             n = 0
             while True:
                 n += 1
                 if n > 64:
-                    raise PathLimit('loop over itertools.count() at %s not left after 64 iterations' % self.where(s, frame))
-                self.assign(s.target, it.next_value(self, frame, s), frame, s)
+                    raise PathLimit('loop over %r at %s not left after 64 iterations' % (it, self.where(s, frame)))
+                try:
+                    nxt = it.next_value(self, frame, s)
+                except Raise as r:
+                    if r.cls == 'StopIteration':
+                        if s.orelse:
+                            return self.block(s.orelse, frame)
+                        return None
+                    raise
+                self.assign(s.target, nxt, frame, s)
                 c = self.block(s.body, frame)
                 if c is not None:
                     if c.kind == 'break':
@@ -2226,6 +2303,15 @@ class Interp(object):
                 base[idx] = v
             elif isinstance(base, list) and isinstance(idx, int) and -len(base) <= idx < len(base):
                 base[idx] = v
+            elif isinstance(base, list) and isinstance(idx, tuple) and len(idx) == 4 and idx[0] == 'slice':
+                parts = idx[1:]
+                if all(p is None or (isinstance(p, int) and not isinstance(p, bool)) for p in parts) and isinstance(v, (list, tuple)):
+                    try:
+                        base[slice(*parts)] = list(v)
+                    except ValueError:
+                        raise Raise('ValueError', node, self.where(node, frame))
+                else:
+                    raise Unsupported('slice assignment with abstract bounds or value at %s' % self.where(node, frame))
         elif isinstance(t, ast.Starred):
             self.assign(t.value, v, frame, node)
         else:
